@@ -7,7 +7,8 @@ use curve25519_dalek::edwards::CompressedEdwardsY;
 use monero::blockdata::transaction::{Error as TxError, OwnedTxOut};
 use monero::consensus::encode::deserialize;
 use monero::cryptonote::hash::Hash8;
-use monero::cryptonote::onetime_key::{KeyRecoverer, SubKeyChecker};
+use monero::cryptonote::onetime_key::{KeyGenerator, KeyRecoverer, SubKeyChecker};
+use monero::blockdata::transaction::TxOutTarget;
 use monero::cryptonote::subaddress::Index;
 use monero::util::key::{KeyPair, PrivateKey, PublicKey, ViewPair};
 use monero::util::ringct::{EcdhInfo, Key};
@@ -80,6 +81,42 @@ fn u32arg(s: &str) -> Option<u32> {
     s.parse().ok()
 }
 
+fn leb(mut n: u64) -> Vec<u8> {
+    let mut v = vec![];
+    while n >= 0x80 {
+        v.push((n & 0x7f) as u8 | 0x80);
+        n >>= 7;
+    }
+    v.push(n as u8);
+    v
+}
+
+// TxOutTarget::check_view_tag called directly (the scanner is only one of its callers): for the main transaction key and
+// every output, the answer must be  tag == Keccak("view_tag" || 8vR || varint(position))[0]  (true for untagged targets)
+fn view_tag_route(tx: &Transaction, pair: &ViewPair) -> Option<String> {
+    let r = match monero::blockdata::transaction::ExtraField::try_parse(&tx.prefix.extra) {
+        Ok(f) => f,
+        Err(f) => f,
+    }
+    .tx_pubkey()?;
+    let kg = KeyGenerator::from_key(pair, r);
+    for (i, o) in tx.prefix.outputs.iter().enumerate() {
+        let want = match &o.target {
+            TxOutTarget::ToTaggedKey { view_tag, .. } => {
+                let mut buf = b"view_tag".to_vec();
+                buf.extend_from_slice(kg.rv.as_bytes());
+                buf.extend_from_slice(&leb(i as u64));
+                monero::Hash::new(&buf).as_bytes()[0] == *view_tag
+            }
+            _ => true,
+        };
+        if o.target.check_view_tag(kg.rv, i) != want {
+            return Some(format!("ROUTE-MISMATCH check_view_tag at output {}", i));
+        }
+    }
+    None
+}
+
 fn scan(args: &[&str]) -> Option<String> {
     let (entry, v, s, a, b, c, d, h) = (args[0], args[1], args[2], args[3], args[4], args[5], args[6], args[7]);
     if !["tx", "prefix", "checker", "pchecker"].contains(&entry) {
@@ -115,6 +152,9 @@ fn scan(args: &[&str]) -> Option<String> {
         }
     }
     let pair = ViewPair { view, spend };
+    if let Some(m) = view_tag_route(&tx, &pair) {
+        return Some(m);
+    }
     Some(match entry {
         "tx" => show_scan(tx.check_outputs(&pair, a..b, c..d)),
         "prefix" => show_scan(tx.prefix.check_outputs(&pair, a..b, c..d, tx.rct_signatures.sig.as_ref())),
@@ -234,6 +274,11 @@ pub fn run(op: &str, args: &[&str]) -> Option<String> {
                 (sk!(&show_hex(&vb)), pk!(&show_hex(&sb)), pk!(&show_hex(&pb)), pk!(&show_hex(&kb)));
             let pair = ViewPair { view, spend };
             let checker = SubKeyChecker::new(&pair, a..b, c..d);
+            let direct = checker.check(pos as usize, &key, &txk).copied();
+            let via = checker.check_with_key_generator(KeyGenerator::from_key(&pair, txk), pos as usize, &key).copied();
+            if direct != via {
+                return Some("ROUTE-MISMATCH check / check_with_key_generator".to_string());
+            }
             Some(match checker.check(pos as usize, &key, &txk) {
                 Some(i) => format!("OK {} {}", i.major, i.minor),
                 None => "NONE".to_string(),
